@@ -128,6 +128,17 @@ def sortedByStartB : List Gene → Bool
   | [] => true
   | g :: gs => gs.all (fun h => decide (g.start ≤ h.start)) && sortedByStartB gs
 
+/-- `[a, b)` is a maximal gap of `[start, end)`: non-empty, inside, clear of every gene's core,
+    and not extendable on either side (it begins at `start` or right after a core base, and ends
+    at `end` or right before a core base) -/
+structure IsGap (start «end» : Int) (genes : List Gene) (pad a b : Int) : Prop where
+  lo : start ≤ a
+  ne : a < b
+  hi : b ≤ «end»
+  clear : ∀ g ∈ genes, ∀ i, a ≤ i → i < b → ¬ g.core pad i
+  maxL : a = start ∨ ∃ g ∈ genes, g.core pad (a - 1)
+  maxR : b = «end» ∨ ∃ g ∈ genes, g.core pad b
+
 /-- executable: the area `[a, b)` avoids every gene's core -/
 def areaAvoids (genes : List Gene) (pad : Int) (a : Int × Int) : Bool :=
   genes.all fun g => decide (a.2 ≤ g.start + pad) || decide (g.end - pad ≤ a.1) || decide (g.end - pad ≤ g.start + pad)
